@@ -1079,12 +1079,14 @@ impl<'a> TLVSequence<'a> {
     fn container_value_len(&self, control: TLVControl) -> Result<usize, Error> {
         if control.value_type.is_container() {
             let mut next = self.clone();
-            let mut len = 0;
+            let mut len = 0_usize;
             let mut level = 1;
 
             while level > 0 {
                 next = next.next_enter()?;
-                len += next.len()?;
+                len = len
+                    .checked_add(next.len()?)
+                    .ok_or(ErrorCode::TLVTypeMismatch)?;
 
                 let control = next.control()?;
 
@@ -1110,9 +1112,18 @@ impl<'a> TLVSequence<'a> {
     fn len(&self) -> Result<usize, Error> {
         let control = self.control()?;
 
-        self.value_len(control).map(|value_len| {
-            1 + control.tag_type.size() + control.value_type.variable_size_len() + value_len
-        })
+        Self::total_len(control, self.value_len(control)?)
+    }
+
+    /// Return the length of a TLV element given its control byte and the length of its value.
+    ///
+    /// The value length might come straight from an (untrusted) length field and is therefore
+    /// added with overflow checking.
+    #[inline(always)]
+    fn total_len(control: TLVControl, value_len: usize) -> Result<usize, Error> {
+        (1 + control.tag_type.size() + control.value_type.variable_size_len())
+            .checked_add(value_len)
+            .ok_or_else(|| ErrorCode::TLVTypeMismatch.into())
     }
 
     /// Return the length of the first TLV element in the sequence, regardless of the element type.
@@ -1120,9 +1131,7 @@ impl<'a> TLVSequence<'a> {
     pub(crate) fn container_len(&self) -> Result<usize, Error> {
         let control = self.control()?;
 
-        self.container_value_len(control).map(|value_len| {
-            1 + control.tag_type.size() + control.value_type.variable_size_len() + value_len
-        })
+        Self::total_len(control, self.container_value_len(control)?)
     }
 
     /// Returns a sub-slice representing the start of the next TLV element in the sequence.
